@@ -50,6 +50,8 @@ type BatchCfg struct {
 	After    bool  // the same node object performs another run afterwards; the lists handed to post are looked at again
 	WarmC    int   // > 0: the same node object first performs a run with this concurrency, then is reconfigured
 	WarmN    int   // > 0: ... and with this retry budget
+	PrepN    bool  // the node is constructed with another retry budget; its own prep callback sets the real one
+	NilItem  int   // > 0: this item is a Result holding nil (it is processed like any other item)
 	Procs    int   // > 0: run the scenario with GOMAXPROCS limited to this value
 }
 
@@ -58,7 +60,8 @@ func parseBatchCfg(m map[string]any) BatchCfg {
 		Fb: asBool(m["fb"]), Ctx0: asBool(m["ctx0"]), Cancel: asBool(m["cancel"]), PrepErr: asBool(m["preperr"]),
 		PostErr: asBool(m["posterr"]), Gated: asBool(m["gated"]), Strict: asBool(m["strict"]),
 		Shape: asStr(m["shape"]), ExSty: asStr(m["exsty"]), Via: asStr(m["via"]), Sched: asStr(m["sched"]),
-		CtxKind: asStr(m["ctxkind"]), GenSeed: asStr(m["genseed"]), WarmC: asInt(m["warmc"]), Procs: asInt(m["procs"]), After: asBool(m["after"]), WarmN: asInt(m["warmn"])}
+		CtxKind: asStr(m["ctxkind"]), GenSeed: asStr(m["genseed"]), WarmC: asInt(m["warmc"]), Procs: asInt(m["procs"]), After: asBool(m["after"]), WarmN: asInt(m["warmn"]),
+		PrepN: asBool(m["prepn"]), NilItem: asInt(m["nilitem"])}
 	for _, a := range asList(m["barrier"]) {
 		c.Barrier = append(c.Barrier, asInt(a))
 	}
@@ -109,7 +112,7 @@ func (c BatchCfg) toJSON() map[string]any {
 	return map[string]any{"N": c.N, "n": c.Items, "c": c.C, "stopmode": c.StopMode, "w": c.W, "fb": c.Fb, "ctx0": c.Ctx0,
 		"cancel": c.Cancel, "acts": acts, "outs": outs, "preperr": c.PrepErr, "posterr": c.PostErr, "gated": c.Gated,
 		"strict": c.Strict, "shape": c.Shape, "exsty": c.ExSty, "via": c.Via, "sched": c.Sched, "ctxkind": c.CtxKind, "genseed": c.GenSeed,
-		"barrier": bar, "warmc": c.WarmC, "erritems": eit, "procs": c.Procs, "after": c.After, "warmn": c.WarmN}
+		"barrier": bar, "warmc": c.WarmC, "erritems": eit, "procs": c.Procs, "after": c.After, "warmn": c.WarmN, "prepn": c.PrepN, "nilitem": c.NilItem}
 }
 
 // ---- script ----------------------------------------------------------------
@@ -295,6 +298,11 @@ func (b *batchRun) exec(arg Obs) (any, error, error) {
 	if arg.Tok > 0 && arg.Tok%1000 == 0 {
 		item = arg.Tok / 1000
 	}
+	if arg.Tok == 0 && !arg.IsErr && b.cfg.NilItem > 0 {
+		// the item that holds nil: exec receives it like any other item
+		item = b.cfg.NilItem
+		arg = Obs{Tok: itemTok(item), Same: true, Wrap: arg.Wrap}
+	}
 	if arg.IsErr && arg.ErrTok > 0 && arg.ErrTok%1000 == 0 && b.isErrItem(arg.ErrTok/1000) {
 		// the item is an error Result produced by prep: exec receives it like any other item
 		item = arg.ErrTok / 1000
@@ -396,6 +404,10 @@ func (b *batchRun) fallback(prep any, err error) (any, error) {
 	if arg.Tok > 0 && arg.Tok%1000 == 0 {
 		item = arg.Tok / 1000
 	}
+	if arg.Tok == 0 && !arg.IsErr && b.cfg.NilItem > 0 {
+		item = b.cfg.NilItem
+		arg = Obs{Tok: itemTok(item), Same: true, Wrap: arg.Wrap}
+	}
 	o := b.sc.fb(item)
 	seen := []any{}
 	for _, x := range b.reg.MatchAll(err) {
@@ -474,10 +486,12 @@ func (b *batchRun) post(shared *flyt.SharedStore, items, results []flyt.Result) 
 // observeLists: what the item list and the result list look like right now
 func (b *batchRun) observeLists(items, results []flyt.Result) ([]any, []any) {
 	its := []any{}
-	for _, r := range items {
+	for i, r := range items {
 		ob := b.reg.ObserveResult(r)
 		if ob.IsErr && ob.ErrTok > 0 {
 			its = append(its, ob.ErrTok)
+		} else if ob.Tok == 0 && !ob.IsErr && b.cfg.NilItem == i+1 {
+			its = append(its, itemTok(i+1)) // the item that holds nil, in its place
 		} else {
 			its = append(its, ob.Tok)
 		}
@@ -585,6 +599,9 @@ func (b *batchRun) build() *flyt.BatchNodeBuilder {
 	}
 	// configuration: option form for half of the settings, builder form for the others
 	bn.WithMaxRetries(cfg.N).WithWait(time.Duration(cfg.W) * time.Millisecond)
+	if cfg.PrepN {
+		bn.WithMaxRetries(cfg.N%3 + 2 - cfg.N%2) // not the real budget: the node's own prep sets that while the node runs
+	}
 	bn.WithBatchConcurrency(cfg.C)
 	if cfg.StopMode || cfg.ModeSet {
 		bn.WithBatchErrorHandling(!cfg.StopMode)
@@ -593,6 +610,9 @@ func (b *batchRun) build() *flyt.BatchNodeBuilder {
 		bn.WithPrepFunc(func(ctx context.Context, shared *flyt.SharedStore) ([]flyt.Result, error) {
 			ev, ok := b.prepEvent(shared)
 			b.log(ev)
+			if cfg.PrepN {
+				bn.WithMaxRetries(cfg.N)
+			}
 			if !ok {
 				return nil, b.reg.Err(prepErrTok)
 			}
@@ -600,6 +620,8 @@ func (b *batchRun) build() *flyt.BatchNodeBuilder {
 			for i := range l {
 				if b.isErrItem(i + 1) {
 					l[i] = flyt.NewErrorResult(b.reg.Err(itemTok(i + 1)))
+				} else if cfg.NilItem == i+1 {
+					l[i] = flyt.NewResult(nil)
 				} else {
 					l[i] = flyt.NewResult(b.reg.Payload(itemTok(i + 1)))
 				}
